@@ -3,7 +3,7 @@
 E3  MC_Proposal: decision table = every well-formed pre-state of a family (installed proposals over
     three overlapping transactions, timestamps around ts + gap, commitment/response counts around
     the threshold, verifier-map owners, body/finalization/cache classes) x every retirement step
-    (expiry, retry, round reset, announcement deferral). The specification satisfies the property
+    (expiry, retry, round reset, announcement deferral, duplicate guard of a batched announcement). The specification satisfies the property
     everywhere; the variant in which a retry requeues every transaction of the retired proposal
     (the behaviour before repair a97b75a) violates it (non-vacuity witness).
 E1  TLC-emitted cases built on a real node (SetupNode over a real BadgerStore; Chain maps as the
@@ -30,7 +30,7 @@ def run(ctx, args):
         fe = [ex.submit(ctx.tlc_edges, d, "MC_Proposal.tla", "Gen_Proposal_%s.cfg" % f, timeout=2400, tag="CASE ")
               for f in fams]
         fs = [ex.submit(ctx.tlc_mc, d, "MC_Proposal.tla", "MC_Proposal_%s.cfg" % w, workers=1, timeout=600,
-                        expect_violation=w, count=False) for w in ("RequeueAllBreaks", "ReachRequeued", "ReachOwnedKept", "ReachPartialExpires")]
+                        expect_violation=w, count=False) for w in ("RequeueAllBreaks", "ReachRequeued", "ReachOwnedKept", "ReachPartialExpires", "ReachGuardedFirst")]
         for f in fs:
             f.result()
         fam_cases = []
@@ -46,7 +46,7 @@ def run(ctx, args):
             ctx.transitions += len(cs)
     ctx.exhaustive = True
     ctx.cov["witnesses_reached"] = ["RequeueAllBreaks (a retry that requeues every transaction violates StepOK)",
-                                    "ReachRequeued", "ReachOwnedKept", "ReachPartialExpires"]
+                                    "ReachRequeued", "ReachOwnedKept", "ReachPartialExpires", "ReachGuardedFirst"]
     # ---- E1: quick = seeded sample of the two-proposal family; thorough = all of it + a sample of the
     # three-proposal family
     cases = []
@@ -73,7 +73,7 @@ def run(ctx, args):
     nreq = sum(1 for e in events if any(not e["pre"]["queued"][t] for t in e["post"]["queue"] if t in e["pre"]["queued"]))
     ctx.cov["cases_emitted_by_tlc"] = total
     ctx.cov["cases_where_the_step_requeued_something"] = nreq
-    ctx.cov["by_step"] = {op: sum(1 for e in events if e["o"]["op"] == op) for op in ("Expire", "Retry", "Reset", "Defer")}
+    ctx.cov["by_step"] = {op: sum(1 for e in events if e["o"]["op"] == op) for op in ("Expire", "Retry", "Reset", "Defer", "Announce")}
     ctx.rule = ("TLC-enumerated (pre-state, retirement step) cases of spec/Proposal executed on a real node; distinct = "
                 "distinct (observed pre-state, step) pairs; quick: seeded sample of the two-proposal family, thorough: "
                 "all of it plus a seeded sample of the three-proposal family")
@@ -81,8 +81,8 @@ def run(ctx, args):
     validate(ctx, d, trace, events)
     ctx.assumptions += [
         "pre-states are constructed directly in the Chain maps (as the repository's tests do), not reached through the CoSi handlers",
-        "a proposal deferred by prepareAnnouncement is explored only with transactions no installed proposal guards "
-        "(that case belongs to the duplicate guard of cosiSendAnnouncement, not exercised here)",
+        "a proposal deferred by prepareAnnouncement is explored only with transactions no installed proposal guards; batches "
+        "with a guarded member are driven through the duplicate guard of cosiSendAnnouncement (guarded member at every position)",
         "deferral paths exercised: chain state missing, timestamp not after the cache round, after the round cut-off",
         "time is explored in units of SnapshotRoundGap/2 (exact equality with ts + gap included)",
     ]
